@@ -368,7 +368,7 @@ def e_v2(ctx):
     runner = None
     for f in gflows:
         for s in f.walk():
-            if colang2.flow_call_name(s) == "input rails":
+            if colang2.awaits_flow(s, "input rails"):
                 runner = f
     if runner is None:
         cands = {}
@@ -444,9 +444,9 @@ def e_v2(ctx):
         w = Walker(callee_outcomes=lambda s: {"continue"}, action_value=lambda s, val=val: val if "CheckFlowDefinedAction" in (s.expr or "") else TOP)
         paths = w.run(runner.body, {})
         for p in paths:
-            calls = [s for s in p.steps if colang2.flow_call_name(s) == "input rails" and s.kind in ("await", "call")]
+            calls = [s for s in p.steps if colang2.awaits_flow(s, "input rails")]
             if val:
-                ok = bool(calls) and all(vars_in(c.expr) == set(params[:1]) for c in calls)
+                ok = bool(calls) and all(vars_in(c.expr if c.kind != "when" else " ".join(sp for sp, _ in c.branches if sp.strip().startswith("input rails"))) == set(params[:1]) for c in calls)
                 ctx.check("C01.e.runner", runner.file, runner.name, "input rails %s" % lab, ok,
                           "when the `input rails` flow is defined, '%s' awaits `input rails $%s` (found: %s)" % (
                               runner.name, params[0] if params else "?", [c.text for c in calls]), line=runner.line)
